@@ -86,6 +86,10 @@ CLAIMS.update({
         'also from any larger medium), no raise statement is reached (C02_open_rejects_nothing_valid); for ANY image the parser accepts two file records share an Inode iff both have data and the same '
         'extent, every empty file gets its own Inode (C02_open_shares_inodes_iff_same_extent), truncated files carry the bytes that are left (C02_open_of_a_truncated_image_lengths; the code before fix '
         '10cfb30 is refuted); tied by parseleaf.py (the model parser run on the bytes the library wrote vs the object the library opened; open+write = identity).  '
+        'Rock Ridge: Model/ParseRR.v (RockRidge.parse on every System Use / continuation area, the continuation-block table rebuilt on open, the version inference) composed with Model/MasterRR.v: '
+        'for every edit history with distinct sibling identifiers the opened object is the writer\'s graph (C02_open_of_a_rock_ridge_image_gives_the_writers_graph) with the writer\'s version '
+        '(C02_open_recognizes_the_rock_ridge_version); tied by parserrleaf.py (parsed graph read off the opened object; the same further edits on the original and on the reopened object).  '
+        'El Torito: Model/BootParse.v, theorems in C11.  '
         'Reopen semantics in the specification: zero-length contents lose cross-namespace link identity on disc (stated in FsSpec.Reopen). '
         'No foreign-image corpus exists offline: only images pycdlib wrote are edited.  Trusted as for C01.'),
   technique='Coq specification with frame theorems + multi-generation differential run against the specification evaluated in Coq',
@@ -182,7 +186,7 @@ CLAIMS.update({
         'models vs the real methods on every run (targets around every record/component boundary).  The property itself on generated Rock Ridge images (1.09/1.10/1.12 x XA, long '
         'names, CE gaps of exactly the needed size +-1, trees deeper than 8): an independent SUSP/RRIP reader recovers names, types, PX mode types, link counts, targets, the logical '
         'tree; entry lengths, CE/CL/PL pointers.'),
-  note=('Added model RRPlace.v (which System Use entries RockRidge.new creates and where: record vs continuation area; C08_placement_fits_the_record, C08_ce_entry_length_is_the_area, C08_placed_name_reads_back, C08_no_continuation_iff_first_fit, C08_placement_total for ALL inputs; tied by rrplaceleaf.py on a boundary grid incl. every record length 120..257 with every relocation flag).  The entry lengths all these models use are the length() static methods of rockridge.py TRANSLATED on every run (Gen/GenRR.v): C08_entry_lengths_are_the_source.  Continuation entries over whole edit histories (allocation, sharing, release with the last owner): Model/AccountRR.v, theorems in C04.  Added models: Nlink.v (directory link counts: 2 + #subdirs on the record, its dot and the children\'s dotdot after EVERY add/rm_directory history incl. refused edits, C08_nlink; depth <= 7, no relocation) and RREntries.v/RRWalk.v (every System Use entry codec, the walker and the recorder: entry round trips, self-describing lengths, C08_area_walk for any entry list; the two known symlink findings as _refuted theorems); tied by nlinkleaf.py (PX counts of the record objects) and rrleaf.py (System Use areas of generated images).  Relocation: Model/Reloc.v (RR_MOVED, CL placeholders, RE, PL as a state machine with the physical layout and an isofs-style reader): for EVERY accepted history the reader sees exactly the logical tree the edits imply (C08_relocation_reader_sees_the_logical_tree), every CL/PL/RE link lands where it should and is unique (C08_relocation_links_consistent), refused edits change nothing; what the recorded link counts are is proved, and where they deviate from 2 + logical sub-directories is stated as refuted theorems (root counts RR_MOVED; `..` of a relocated directory carries RR_MOVED\'s count; physical depth can exceed 8) -- link counts are not compared on images with a relocation directory; tied by relocleaf.py after EVERY operation incl. reopen and the written image.  Relocation together with continuation areas, Joliet or UDF is decided on sampled images by the reader.  The whole image as BYTES: Model/MasterRR.v renders every directory extent (records with their System Use areas) and every continuation block over the states of Model/AccountRR.v, with an isofs-style SUSP/RRIP reader on those bytes: for EVERY edit history (names and targets of any length, versions 1.09/1.10/1.12) the reader recovers every Rock Ridge name, mode, link count and symlink target (C08_rr_reader_recovers_every_entry_after_every_history), continuation areas of different records never meet and never lie in the ER sector (C08_rr_continuation_areas_disjoint_after_every_history); System Use well-formedness and root SP/ER in Proofs/MasterRRProofs.v; tied by masterrrleaf.py (model bytes = the bytes cut out of written images; the reader run on the library\'s bytes).'),
+  note=('Added model RRPlace.v (which System Use entries RockRidge.new creates and where: record vs continuation area; C08_placement_fits_the_record, C08_ce_entry_length_is_the_area, C08_placed_name_reads_back, C08_no_continuation_iff_first_fit, C08_placement_total for ALL inputs; tied by rrplaceleaf.py on a boundary grid incl. every record length 120..257 with every relocation flag).  The entry lengths all these models use are the length() static methods of rockridge.py TRANSLATED on every run (Gen/GenRR.v): C08_entry_lengths_are_the_source.  Continuation entries over whole edit histories (allocation, sharing, release with the last owner): Model/AccountRR.v, theorems in C04.  Added models: Nlink.v (directory link counts: 2 + #subdirs on the record, its dot and the children\'s dotdot after EVERY add/rm_directory history incl. refused edits, C08_nlink; depth <= 7, no relocation) and RREntries.v/RRWalk.v (every System Use entry codec, the walker and the recorder: entry round trips, self-describing lengths, C08_area_walk for any entry list; the two known symlink findings as _refuted theorems); tied by nlinkleaf.py (PX counts of the record objects) and rrleaf.py (System Use areas of generated images).  Relocation: Model/Reloc.v (RR_MOVED, CL placeholders, RE, PL as a state machine with the physical layout and an isofs-style reader): for EVERY accepted history the reader sees exactly the logical tree the edits imply (C08_relocation_reader_sees_the_logical_tree), every CL/PL/RE link lands where it should and is unique (C08_relocation_links_consistent), refused edits change nothing; what the recorded link counts are is proved, and where they deviate from 2 + logical sub-directories is stated as refuted theorems (root counts RR_MOVED; `..` of a relocated directory carries RR_MOVED\'s count; physical depth can exceed 8) -- link counts are not compared on images with a relocation directory; tied by relocleaf.py after EVERY operation incl. reopen and the written image.  Relocation together with continuation areas, Joliet or UDF is decided on sampled images by the reader.  The whole image as BYTES: Model/MasterRR.v renders every directory extent (records with their System Use areas) and every continuation block over the states of Model/AccountRR.v, with an isofs-style SUSP/RRIP reader on those bytes: for EVERY edit history (names and targets of any length, versions 1.09/1.10/1.12) the reader recovers every Rock Ridge name, mode, link count and symlink target (C08_rr_reader_recovers_every_entry_after_every_history), continuation areas of different records never meet and never lie in the ER sector (C08_rr_continuation_areas_disjoint_after_every_history); System Use well-formedness and root SP/ER in Proofs/MasterRRProofs.v; tied by masterrrleaf.py (model bytes = the bytes cut out of written images; the reader run on the library\'s bytes).  Continuation areas of a PARSED image: C08_open_tracks_exactly_the_written_continuation_entries (Model/ParseRR.v).'),
   technique='Coq round-trip proofs for NM/SL splitting and CE allocator invariant + leaf runs + independent SUSP/RRIP reader on generated images',
   design='§8.8'),
  'C09': dict(category='proof',
